@@ -399,6 +399,7 @@ structure Run where
   stored : Bytes := []
   sender : Bytes := []
   rcpts : List Bytes := []
+  rest : Bytes := []              -- when the request was read completely: what follows it (never read)
   deriving Repr
 
 def recvOps (cfg : Cfg) : List QOp := (receivedPieces pQMQP cfg.peer none cfg.now).map QOp.put
@@ -432,8 +433,8 @@ def parse (cfg : Cfg) (inp : Bytes) : Run :=
               match getcomma 1 rl.rest with
               | .stop e _ => { ops := ops3, opened := true, stop := some e, stored := stored, flagok := sok && rl.flagok,
                                sender := if sok then s else [], rcpts := rl.rcpts }
-              | .ok _ _ => { ops := ops3 ++ [.close], opened := true, stored := stored, flagok := sok && rl.flagok,
-                             sender := if sok then s else [], rcpts := rl.rcpts }
+              | .ok _ r9 => { ops := ops3 ++ [.close], opened := true, stored := stored, flagok := sok && rl.flagok,
+                              sender := if sok then s else [], rcpts := rl.rcpts, rest := r9 }
 
 def sCantAccept : Bytes := [68, 115, 111, 114, 114, 121, 44, 32, 73, 32, 99, 97, 110, 39, 116, 32, 97, 99, 99, 101, 112, 116, 32, 97, 100, 100, 114, 101, 115, 115, 101, 115, 32, 108, 105, 107, 101, 32, 116, 104, 97, 116, 32, 40, 35, 53, 46, 49, 46, 51, 41]
 
